@@ -1,5 +1,6 @@
 """Cases for the pointwise (scalar) translator py2lean.py + normalize.py.
 Every accepted re-spelling is paired with at least one nearby BREAKING variant (mutant)."""
+import run
 from run import case, same, contains, refused, differs, tr, check
 
 # ---------------------------------------------------------------------------------------------- 1. numpy spellings
@@ -744,3 +745,48 @@ def _mixed_array(T):
             SPEC_MIX, "mixed", "scalar branch")
     refused("scalar path forgets [0]... and scales (mutant)", helper.replace("_mixed_array(np.asarray([T]))[0]", "2 * _mixed_array(np.asarray([T]))[0]"),
             SPEC_MIX, "mixed", "scalar branch")
+
+
+# ---------------------------------------------------------------------------------------------- helpers of other modules
+OTHER = '''
+import numpy
+from typhon import constants as cst
+
+SCALE = 2.0
+
+
+def c_over(x):
+    """Speed of light divided by *x*."""
+    return numpy.divide(cst.speed_of_light, x)
+
+
+def twice_c_over(x):
+    y = c_over(x)
+    return y * 2
+
+
+def scaled(x):
+    return x * SCALE
+'''
+
+
+@case
+def helpers_imported_from_another_module():
+    run.MODULES["typhon.utils.conv"] = OTHER
+    try:
+        hdr = HDR = "import numpy as np\nfrom typhon import constants\nfrom typhon.utils.conv import c_over\nfrom typhon.utils import conv\n\n"
+        base = "def f(x):\n    return np.divide(constants.speed_of_light, x)\n"
+        same("from m import helper", base, "def f(x):\n    return c_over(x)\n", [{"name": "f"}], header=hdr)
+        same("m.helper", base, "def f(x):\n    return conv.c_over(x)\n", [{"name": "f"}], header=hdr)
+        rep = contains("helper calling a helper of its module", "def f(x):\n    return conv.twice_c_over(x)\n", [{"name": "f"}], "f",
+                       yes=["let y_h1 : ℝ := (C.speed_of_light / x)", "(y_h1 * (2 : ℝ))"], header=hdr)
+        check(rep["auto_helpers"].get("Snippet.f") == ["typhon.utils.conv.c_over (expanded in place)", "typhon.utils.conv.twice_c_over (expanded in place)"],
+              "foreign helpers are reported by their dotted name", str(rep["auto_helpers"]))
+        refused("foreign helper reading a constant of its module", "def f(x):\n    return conv.scaled(x)\n", [{"name": "f"}], "f", "module-level name SCALE", header=hdr)
+        refused("function that does not exist there", "def f(x):\n    return conv.nothing(x)\n", [{"name": "f"}], "f", "call", header=hdr)
+        run.MODULES["typhon.utils.conv"] = OTHER.replace("numpy.divide(cst.speed_of_light, x)", "numpy.divide(cst.speed_of_light, x) + 1")
+        contains("the other module's helper changed (mutant)", "def f(x):\n    return c_over(x)\n", [{"name": "f"}], "f",
+                 yes=["((C.speed_of_light / x) + (1 : ℝ))"], header=hdr)
+        del HDR
+    finally:
+        run.MODULES.clear()
